@@ -29,8 +29,10 @@ import hashlib
 import json
 import os
 import random
+import re
 import subprocess
 import sys
+import time
 from concurrent.futures import ThreadPoolExecutor
 from pathlib import Path
 
@@ -75,6 +77,10 @@ def run(ctx):
     rng = random.Random(ctx.seed * 7919 + 15)
     sc = ctx.scratch
     nproc = 8
+    t00 = time.time()
+
+    def lap(what):
+        ctx.log(f"{what}: t+{time.time() - t00:.1f}s")
 
     # ---------------------------------------------------------------- A. theorems + sensitivity
     ALL = ("TypeOK", "Residue", "BodySeesOwn", "Depth", "Mutex", "Progress")
@@ -104,6 +110,7 @@ def run(ctx):
     with ThreadPoolExecutor(4) as ex:
         futs = {n: ex.submit(f) for n, f in jobs.items()}
         res = {n: f.result() for n, f in futs.items()}
+    lap("TLC theorem / sensitivity / enumeration runs")
     ev.tlc("PatchSection UseLock=TRUE, 3 threads x 2 calls, bodies may raise: all invariants", res["ps_locked"])
     if res["ps_locked"].violated:
         v.violation(what=f"PatchSection: {res['ps_locked'].violated} violated on the reference design",
@@ -130,11 +137,14 @@ def run(ctx):
         dump = sc / f"sched-{k}-{c}.dump"
         if not dump.exists():
             dump = Path(str(dump) + ".dump")
-        scheds = []
-        for s in iter_dump(dump):
-            st = s["st"]
-            if all(x == 0 for x in _vals(st["left"])) and all(x == "idle" for x in _vals(st["pc"])):
-                scheds.append(list(s["sched"]))
+        # every step appends its thread to `sched` and every call has exactly 4 observable steps, so the
+        # complete interleavings are the states whose history has full length (regex: 110k states in < 1 s)
+        text = dump.read_text()
+        if text.count("\nState ") + text.startswith("State ") != r.distinct:
+            raise MachineryError(f"dump {dump.name} does not hold the {r.distinct} states TLC reported")
+        scheds = [[int(x) for x in m.split(",")] for m in re.findall(r"sched = <<([0-9,\s]*)>>", text)
+                  if m.strip()]
+        scheds = [x for x in scheds if len(x) == 4 * k * c]
         scheds.sort()
         counts[(k, c)] = len(scheds)
         if not scheds:
@@ -149,6 +159,7 @@ def run(ctx):
             for s in scheds:
                 sched_jobs.append((k, c, s, [[rng.random() < 0.25 for _ in range(c)] for _ in range(k)]))
     ctx.log(f"schedules enumerated by TLC: {counts}; replaying {len(sched_jobs)}")
+    lap("dumps parsed")
     rng.shuffle(sched_jobs)
     parts = [sched_jobs[i::nproc] for i in range(nproc)]
     for i, part in enumerate(parts):
@@ -197,18 +208,14 @@ def run(ctx):
                     for i in range(nproc)]
         f_stress = [ex.submit(_spawn, ["stress", sc / f"stress-{i}.in.json", sc / f"stress-{i}.out.json"])
                     for i in range(n_stress)]
-        f_base = [ex.submit(_spawn, ["base", sc / "docs.json", d, rep, sc / f"tmp-base-{i}-{rep}"])
-                  for i, d in enumerate(doc_ids) for rep in (0, 1)]
+        f_base = [ex.submit(_spawn, ["base", sc / "docs.json", d, sc / f"tmp-base-{i}"])
+                  for i, d in enumerate(doc_ids)]
         for f in f_replay + f_stress:
             f.result()
         base_out = [json.loads(f.result().stdout.strip().splitlines()[-1]) for f in f_base]
-    baseline, unstable = {}, []
-    for i, d in enumerate(doc_ids):
-        a, b = base_out[2 * i], base_out[2 * i + 1]
-        if a["sig"] != b["sig"] or a["patches"] != b["patches"]:
-            unstable.append(d)
-            continue
-        baseline[d] = a
+    lap("replay, stress and baseline workers")
+    baseline = dict(zip(doc_ids, base_out))
+    for d, a in baseline.items():
         if not (a["cfg"] and a["tmp"] and a["fds"]):
             v.violation(what=f"a single extraction in a fresh process leaves residue: document {d}: "
                              f"config unchanged={a['cfg']} temp root unchanged={a['tmp']} ({a.get('tmp_new')}) "
@@ -216,9 +223,7 @@ def run(ctx):
                         case={"doc": d}, where="extractor of that format")
         if a["patches"] and docs[d]["cls"] == "plain":
             docs[d]["cls"] = "aesT"                             # a fixture that triggers the AES patch
-    if unstable:
-        ctx.log(f"documents whose isolated result is not reproducible (left out; C06 territory): {unstable}")
-    if aes and not baseline.get("aesT", {}).get("patches"):
+    if aes and not baseline["aesT"]["patches"]:
         raise MachineryError("generated AES-256 PDF does not trigger the AES patch in isolation: model class wrong")
 
     # ---- B verdicts: validate the replayed schedules with TLC (UseLock = TRUE)
@@ -260,6 +265,7 @@ def run(ctx):
     for t in good[:3]:
         ev.sample({"schedule": t["hdr"], "events": t["ev"][:14]})
 
+    lap("replayed schedules validated")
     # ---- C verdicts: stress
     s_traces, s_meta = [], []
     for i in range(n_stress):
@@ -283,19 +289,12 @@ def run(ctx):
                              f"wrapper chain depth {len(o['residue_chain'])}, name {o['name']!r}",
                         case={"stress": t["id"]}, expected="original function", observed=o["residue_chain"],
                         where="pdf_extractor.py:_patched_build_char_map")
-        diff = [(t_, d, s) for t_, d, s in o["sigs"] if d in baseline and s != baseline[d]["sig"]]
-        if diff:
-            v.violation(what=f"{len(diff)} of {len(o['sigs'])} concurrent extractions differ from the isolated "
-                             f"single-thread result, e.g. thread {diff[0][0]} document {diff[0][1]}",
-                        case={"stress": t["id"], "doc": diff[0][1]}, expected=baseline[diff[0][1]]["sig"],
-                        observed=diff[0][2], where="pdf_extractor.py:_extract_text_with_spacing")
-        else:
-            v.ok(len(o["sigs"]))
         if o["errors"]:
             v.violation(what=f"stress worker thread crashed: {o['errors'][:2]}", case={"stress": t["id"]})
     ev.replayed(len(s_traces))
     ev.sample({"stress": s_traces[0]["id"], "events": len(s_traces[0]["ev"]), "first": s_traces[0]["ev"][:8]})
 
+    lap("stress traces validated")
     # ---------------------------------------------------------------- D. histories
     r = res["gl_enum"]
     ev.tlc(f"Globals: abstract histories of length <= {hist_len}", r)
@@ -317,8 +316,7 @@ def run(ctx):
                 ids.append(rng.choice(plain_pool))
             else:
                 ids.append(k)
-        if all(i in baseline for i in ids):
-            hjobs.append({"id": "abs:" + "|".join(ids), "docs": ids})
+        hjobs.append({"id": "abs:" + "|".join(ids), "docs": ids})
     n_orders = 10 if ctx.thorough else 3
     everything = sorted(baseline)
     for i in range(n_orders):
@@ -327,23 +325,76 @@ def run(ctx):
         if i % 3 == 2:
             ids = [d for d in ids if docs[d]["cls"] not in ("aesT", "aesU")]     # patch-free order: full residue check
         hjobs.append({"id": f"order-{i}", "docs": ids})
-    (sc / "base.json").write_text(json.dumps({d: baseline[d]["sig"] for d in baseline}))
     (sc / "docs.json").write_text(json.dumps(docs))
     with ThreadPoolExecutor(nproc + 4) as ex:
         fs = []
         for i, j in enumerate(hjobs):
             (sc / f"hist-{i}.in.json").write_text(json.dumps(j))
-            fs.append(ex.submit(_spawn, ["hist", sc / "docs.json", sc / "base.json", sc / f"hist-{i}.in.json",
+            fs.append(ex.submit(_spawn, ["hist", sc / "docs.json", sc / f"hist-{i}.in.json",
                                          sc / f"hist-{i}.out.json", sc / f"tmp-hist-{i}"]))
         for f in fs:
             f.result()
+    lap("history workers")
+    h_raw = [json.loads((sc / f"hist-{i}.out.json").read_text()) for i in range(len(hjobs))]
+    # documents whose observed signature differs from the isolated one somewhere: is the isolated result
+    # itself reproducible?  (two more fresh processes; e.g. xlsx "created" = now is not: C06 territory)
+    suspects = sorted({x["did"] for o in h_raw for x in o["obs"] if x["sig"] != baseline[x["did"]]["sig"]}
+                      | {d for o in s_meta for _t, d, s_ in o["sigs"] if s_ != baseline[d]["sig"]})
+    unstable = []
+    if suspects:
+        with ThreadPoolExecutor(nproc + 4) as ex:
+            fs = [(d, ex.submit(_spawn, ["base", sc / "docs.json", d, sc / f"tmp-recheck-{i}-{rep}"]))
+                  for i, d in enumerate(suspects) for rep in (1, 2)]
+            for d, f in fs:
+                o2 = json.loads(f.result().stdout.strip().splitlines()[-1])
+                if o2["sig"] != baseline[d]["sig"] and d not in unstable:
+                    unstable.append(d)
+    if unstable:
+        ctx.log(f"documents whose result in a fresh process is not reproducible (left out; C06 territory): {unstable}")
+    if any(docs[d]["cls"] != "plain" for d in unstable):
+        raise MachineryError(f"generated documents are not reproducible in isolation: {unstable}")
+    lap(f"stability recheck of {len(suspects)} documents")
+    # stress digests against the isolated baseline
+    for t, o in zip(s_traces, s_meta):
+        sigs = [(t_, d, s_) for t_, d, s_ in o["sigs"] if d not in unstable]
+        diff = [(t_, d, s_) for t_, d, s_ in sigs if s_ != baseline[d]["sig"]]
+        if diff:
+            v.violation(what=f"{len(diff)} of {len(sigs)} concurrent extractions differ from the isolated "
+                             f"single-thread result, e.g. thread {diff[0][0]} document {diff[0][1]}",
+                        case={"stress": t["id"], "doc": diff[0][1]}, expected=baseline[diff[0][1]]["sig"],
+                        observed=diff[0][2], where="pdf_extractor.py:_extract_text_with_spacing")
+        else:
+            v.ok(len(sigs))
+    # events of the recorded histories (projection: class of the document, outcome, resolved glyph ids,
+    # digest equal to the isolated one)
     h_traces = []
-    for i, j in enumerate(hjobs):
-        o = json.loads((sc / f"hist-{i}.out.json").read_text())
-        h_traces.append({"id": j["id"], "hdr": {"docs": j["docs"]}, "ev": o["events"], "detail": o["detail"]})
+    for j, o in zip(hjobs, h_raw):
+        evs, detail, kept = [], [], []
+        for x in o["obs"]:
+            did = x["did"]
+            if did in unstable:
+                continue
+            d = docs[did]
+            same = x["sig"] == baseline[did]["sig"]
+            if d["cls"] == "font":
+                out_ = "ok" if not x["exc"] else "fail"
+            elif did in ("aesT", "aesU"):
+                out_ = "ok" if not x["exc"] else ("fail" if x["exc"] == "ExtractionFailedError" else x["exc"])
+            elif d["cls"] == "aesT":                   # a fixture that triggers the patch: only "as isolated" is known
+                out_ = "ok" if same else "differs"
+            else:
+                out_ = "same" if same else "differs"
+            evs.append({"a": "Extract", "d": d["cls"], "f": d["f"], "g": d["g"], "out": out_, "gl": x["gl"],
+                        "same": same})
+            detail.append(f"{did}: {x['sig'][:70]} (isolated: {baseline[did]['sig'][:70]})")
+            kept.append(did)
+        r_ = o["residue"]
+        evs.append({"a": "Residue", "fns": r_["fns"], "cfg": r_["cfg"], "tmp": r_["tmp"], "fds": r_["fds"]})
+        detail.append(json.dumps(r_))
+        h_traces.append({"id": j["id"], "hdr": {"docs": kept}, "ev": evs, "detail": detail})
     slim = [{k: t[k] for k in ("id", "hdr", "ev")} for t in h_traces]
     g_cfg = "SPECIFICATION TraceSpec\nCONSTRAINT TraceAccept\n" + _gl_cfg([], 1).split("\n", 1)[1]
-    br = validate("Globals", g_cfg, slim, scratch=sc, parallel=8, min_chunk=10, diagnose=200)
+    br = validate("Globals", g_cfg, slim, scratch=sc, parallel=8, min_chunk=10, diagnose=MAX_REPORT)
     ev.tlc_counts("Globals trace validation (reference model, Deviations={})", br.distinct, br.states, br.wall_s)
     rejected = [(t, tv) for t, tv in zip(h_traces, br.verdicts) if not tv.accepted]
     for t, tv in zip(h_traces, br.verdicts):
@@ -355,7 +406,7 @@ def run(ctx):
     if in_dom:
         a_cfg = "SPECIFICATION TraceSpec\nCONSTRAINT TraceAccept\n" + _gl_cfg(["PermanentAesPatch"], 1).split("\n", 1)[1]
         br2 = validate("Globals", a_cfg, [{k: t[k] for k in ("id", "hdr", "ev")} for t, _ in in_dom], scratch=sc,
-                       parallel=8, min_chunk=10, diagnose=200)
+                       parallel=8, min_chunk=10, diagnose=MAX_REPORT)
         ev.tlc_counts("Globals trace validation (as-built: PermanentAesPatch)", br2.distinct, br2.states, br2.wall_s)
         asb = {t["id"]: tv2 for (t, _), tv2 in zip(in_dom, br2.verdicts)}
     shown = 0
@@ -364,8 +415,10 @@ def run(ctx):
         e = t["ev"][r_] if r_ < len(t["ev"]) else None
         a2 = asb.get(t["id"])
         if a2 is not None and a2.accepted:
-            v.known(KF_AES, f"history {t['hdr']['docs'][:4]}...: event {r_ + 1} {e} deviates from the reference "
-                            f"model and equals the as-built model with PermanentAesPatch", case=t["hdr"])
+            v.known(KF_AES, f"history {t['hdr']['docs'][:4]}{'...' if len(t['hdr']['docs']) > 4 else ''} deviates "
+                            f"from the reference model and TLC accepts it under PermanentAesPatch"
+                            + (f" (first deviating event {r_ + 1}: {e})" if tv.reached >= 0 else ""),
+                    case={"docs": t["hdr"]["docs"][:12]})
             continue
         if a2 is not None:                                       # in the domain, but a different wrong observation
             r_ = max(a2.reached, 0)
@@ -380,6 +433,7 @@ def run(ctx):
                     case={"docs": t["hdr"]["docs"][: r_ + 1]}, expected="observation of the same document in a fresh "
                     "process; unchanged config / temp root / open files / third-party functions",
                     observed=e, where="pdf_extractor.py:_ttf_get_glyph_features/_FONT_CACHE; module-level state")
+    lap("histories validated")
     ev.replayed(len(h_traces))
     for t in h_traces:
         if any(e["a"] == "Extract" and e["d"] != "plain" for e in t["ev"]):
@@ -395,13 +449,15 @@ def run(ctx):
            constants={"schedules": {f"k{k}c{c}": n for (k, c), n in counts.items()}, "replayed": len(traces),
                       "stress_runs": n_stress, "history_len": hist_len, "histories": len(hjobs),
                       "documents": len(baseline), "unstable_documents": unstable})
+    lap("done")
     ev.assume("pypdf < 6.6 path (one patched attribute pypdf._page.build_char_map); other pypdf versions: exit 2",
               "observation of the shared variable through the module object's class (getattr/setattr); direct "
               "writes to module.__dict__ would be invisible",
               "blocking is observed through proxies of threading.Lock/RLock globals of the pdf extractor package; "
               "other blocking mechanisms fall back to a 10 s timeout",
               "result equality = sha256 of to_json() of all results (or exception class + message) against one "
-              "fresh process per document, measured twice",
+              "fresh process per document (memory addresses in repr() masked); a document that ever differs is "
+              "re-measured twice in isolation and left out if its isolated result is not reproducible",
               "third-party function identity = functions/classes/methods of every site-packages module loaded "
               "at process start")
 
@@ -431,6 +487,9 @@ def _worker_replay(inp, out):
     Path(out).write_text(json.dumps(traces))
 
 
+_ADDR = re.compile(r"(IndirectObject\(\d+, \d+, )\d+\)")
+
+
 def _signature(path):
     """(signature, first result | None, exception | None) of one extraction through the public entry point"""
     import sharepoint2text
@@ -439,6 +498,7 @@ def _signature(path):
     except Exception as e:  # noqa: failing inputs are part of the workload
         return f"EXC:{type(e).__name__}:{str(e)[:160]}", None, e
     blob = json.dumps([r.to_json() for r in rs], sort_keys=True, default=repr)
+    blob = _ADDR.sub(r"\1*)", blob)              # repr() of pypdf objects carries id(reader): not a result
     return "OK:" + hashlib.sha256(blob.encode()).hexdigest(), (rs[0] if rs else None), None
 
 
@@ -508,7 +568,7 @@ def _prep_tmp(tmp):
         raise MachineryError("cannot point the temp root at the scratch directory")
 
 
-def _worker_base(docs_json, doc_id, rep, tmp):
+def _worker_base(docs_json, doc_id, tmp):
     _quiet()
     _prep_tmp(tmp)
     from .. import repo
@@ -522,7 +582,7 @@ def _worker_base(docs_json, doc_id, rep, tmp):
     print(json.dumps({"sig": sig, "patches": not r["fns"], **r}))
 
 
-def _worker_hist(docs_json, base_json, inp, out, tmp):
+def _worker_hist(docs_json, inp, out, tmp):
     _quiet()
     _prep_tmp(tmp)
     from .. import repo
@@ -531,32 +591,17 @@ def _worker_hist(docs_json, base_json, inp, out, tmp):
     import pypdf._crypt_providers._fallback  # noqa
     from ..c15_docs import resolved_glyphs
     docs = json.loads(Path(docs_json).read_text())
-    base = json.loads(Path(base_json).read_text())
     job = json.loads(Path(inp).read_text())
     res = _Residue(tmp)
-    events, detail = [], []
+    obs = []
     for did in job["docs"]:
         d = docs[did]
         sig, first, exc = _signature(d["path"])
-        same = sig == base[did]
         gl = []
-        if d["cls"] == "font":
-            out_ = "ok" if exc is None else "fail"
-            if first is not None:
-                gl = resolved_glyphs(first.get_full_text(), d["g"])
-        elif d["cls"] in ("aesT", "aesU"):
-            out_ = "ok" if exc is None else ("fail" if type(exc).__name__ == "ExtractionFailedError"
-                                             else type(exc).__name__)
-            if d["cls"] == "aesT" and not did.startswith("aes"):      # a fixture: only "equals isolation" is known
-                out_ = "ok" if same else "differs"
-        else:
-            out_ = "same" if same else "differs"
-        events.append({"a": "Extract", "d": d["cls"], "f": d["f"], "g": d["g"], "out": out_, "gl": gl, "same": same})
-        detail.append(f"{did}: {sig[:60]} (isolated: {base[did][:60]})")
-    r = res.read()
-    events.append({"a": "Residue", "fns": r["fns"], "cfg": r["cfg"], "tmp": r["tmp"], "fds": r["fds"]})
-    detail.append(json.dumps(r))
-    Path(out).write_text(json.dumps({"events": events, "detail": detail}))
+        if d["cls"] == "font" and first is not None:
+            gl = resolved_glyphs(first.get_full_text(), d["g"])
+        obs.append({"did": did, "sig": sig, "exc": type(exc).__name__ if exc is not None else "", "gl": gl})
+    Path(out).write_text(json.dumps({"obs": obs, "residue": res.read()}))
 
 
 def _worker_stress(inp, out):
@@ -610,8 +655,8 @@ if __name__ == "__main__":
     if cmd == "replay":
         _worker_replay(*sys.argv[2:4])
     elif cmd == "base":
-        _worker_base(*sys.argv[2:6])
+        _worker_base(*sys.argv[2:5])
     elif cmd == "hist":
-        _worker_hist(*sys.argv[2:7])
+        _worker_hist(*sys.argv[2:6])
     elif cmd == "stress":
         _worker_stress(*sys.argv[2:4])
